@@ -219,3 +219,71 @@ func short(s string, n int) string {
 }
 
 type returned = vrun.Returned
+
+// observedOutcomes reads, from the plugin log only, which executions were interrupted by a cancel
+// signal or a closed connection and what they answered. Keys are behaviour keys. These observed
+// outcomes replace the scripted ones in the reference ("given the outcomes of the steps").
+func observedOutcomes(ans *vrun.Answer) map[string]string {
+	interrupted := map[string]bool{}
+	obs := map[string]string{}
+	for _, e := range ans.Log {
+		switch e.Kind {
+		case "signal", "ctx-done":
+			interrupted[e.Key] = true
+		case "exec-end":
+			if interrupted[e.Key] {
+				if pl, ok := e.Payload.(map[string]any); ok {
+					if id, _ := pl["output_id"].(string); id == "alt" {
+						obs[e.Key] = "cancelled_alt"
+					}
+				}
+			}
+		}
+	}
+	return obs
+}
+
+// refModels returns the reference evaluated (a) with the scripted outcomes, corrected by the
+// observed outcomes of interrupted executions, and (b) additionally assuming that every plugin
+// step that never executed was closed while waiting when the run shut down (which produces its
+// closed.result). What happens during shutdown is admissible under either.
+func refModels(c *vcase.Case, ans *vrun.Answer) []*vcase.Model {
+	obs := observedOutcomes(ans)
+	in := vcase.NormalizeInput(c.Main, c.InputDoc)
+	base := vcase.NewModel(c.Main, c.Subs, in, c.Script, obs)
+	obs2 := map[string]string{}
+	for k, v := range obs {
+		obs2[k] = v
+	}
+	started := map[string]bool{}
+	for _, k := range execStarts(ans) {
+		started[k] = true
+	}
+	any := false
+	for _, s := range c.Main.Steps {
+		if (s.Kind == "plugin" || s.Kind == "") && !started[s.ID] {
+			obs2["closed-at-shutdown:"+s.ID] = "1"
+			any = true
+		}
+	}
+	if !any {
+		return []*vcase.Model{base}
+	}
+	return []*vcase.Model{base, vcase.NewModel(c.Main, c.Subs, in, c.Script, obs2)}
+}
+
+// beforeShutdown returns a copy of the answer whose log ends where the top-level run began to
+// shut its steps down (event "shutdown-begin", logged from the schedule point at the entry of
+// the run loop's terminate function). ok=false if the observation point was not hit although the
+// run returned (the binary has no schedule points): the caller must treat that as infrastructure
+// failure, not as a pass.
+func beforeShutdown(ans *vrun.Answer) (*vrun.Answer, bool) {
+	for i, e := range ans.Log {
+		if e.Kind == "shutdown-begin" {
+			cp := *ans
+			cp.Log = ans.Log[:i]
+			return &cp, true
+		}
+	}
+	return ans, false
+}
